@@ -9,6 +9,7 @@ import Ymq.Model.PolySpec
 import Ymq.Model.FInt
 import Ymq.Model.Kronecker
 import Ymq.Model.Crt
+import Ymq.Model.PolyMul
 
 namespace Ymq.Drv
 open Ymq.PolySpec
@@ -33,6 +34,10 @@ def showSel (a : Array Nat) : List String → Option String
     let ix ← parseNatList idx
     some (showList (ix.map fun i => coef a i))
   | _ => none
+
+def showOptList : Option (List Nat) → String
+  | none => "panic"
+  | some a => showList a
 
 def showOptArr : Option (Array Nat) → String
   | none => "panic"
@@ -151,11 +156,12 @@ def handlePolyFft : Handler
     let n ← parseNat n; let p ← parsePoly n p; let x ← parseNat x
     some (toString (eval n p x))
   | ["pf_mul_karatsuba", n, p, q] => do
+    -- mechanism model (Ymq/Model/PolyMul.lean); its equality with the schoolbook product is a theorem
     let n ← parseNat n; let p ← parsePoly n p; let q ← parsePoly n q
-    some (showArr (resize (mul n p q) (2 * p.size)))
+    some (showOptList (Ymq.PolyMul.mulKaratsuba (Ymq.PolyMul.natOps n) p.toList q.toList))
   | ["pf_mul_basic", n, p, q] => do
     let n ← parseNat n; let p ← parsePoly n p; let q ← parsePoly n q
-    some (showArr (resize (mul n p q) (2 * p.size)))
+    some (showOptList (Ymq.PolyMul.basicMul (Ymq.PolyMul.natOps n) (List.replicate (2 * p.size) 0) p.toList q.toList))
   | ["pf_mul_fft", n, _ringsize, p, q] => do
     let n ← parseNat n; let p ← parsePoly n p; let q ← parsePoly n q
     some (showArr (mul n p q))
